@@ -247,7 +247,13 @@ func verifyInput(tx *wire.MsgTx, i int, c *coin, wantFlag byte, warm uint64, pen
 	}
 	w0 := w[0][1:]
 	ht := w0[len(w0)-1]
-	if ht != wantFlag {
+	if wantFlag == 0 {
+		switch ht {
+		case 1, 2, 3, 0x81, 0x82, 0x83:
+		default:
+			return fmt.Sprintf("hash-type-%d-unsupported", ht)
+		}
+	} else if ht != wantFlag {
 		return fmt.Sprintf("hash-type-%d-want-%d", ht, wantFlag)
 	}
 	sig, err := btcec.ParseDERSignature(w0[:len(w0)-1], btcec.S256())
@@ -594,92 +600,175 @@ func (s *session) signCase() {
 	for k := r.Intn(3); k > 0; k-- {
 		s.randomOp()
 	}
-	before := stripped(tx)
-	var ret []byte
-	err, panicked := guard(func() error {
-		b, e := s.wm.SignRawTx([]byte(pass), fl, tx)
-		ret = b
-		return e
-	})
-	impl := errClass(err)
-	if panicked {
-		impl = "panic"
-	}
-	if strings.HasPrefix(impl, "err:other:") {
-		impl = "err:engine:" + impl[len("err:other:"):]
-	}
-	after := stripped(tx)
-	stripEq := "0"
-	if bytes.Equal(before, after) {
-		stripEq = "1"
-	}
-	retOK := "0"
-	if err == nil && !panicked {
-		if cur, e := tx.Bytes(wire.Packet); e == nil && bytes.Equal(cur, ret) {
+	// call runs SignRawTx on tx (which may already carry witnesses) and emits the S line
+	call := func(tx *wire.MsgTx, fl, pass string, right bool, tag string, wantFlag byte) (bool, []byte) {
+		// witnesses before the call: "0" none, "v<hash type>" a witness an earlier successful call left
+		var wdesc []string
+		var wbefore [][]byte
+		for _, in := range tx.TxIn {
+			d := "0"
+			if len(in.Witness) == 2 && len(in.Witness[0]) > 2 {
+				d = fmt.Sprintf("v%d", in.Witness[0][len(in.Witness[0])-1])
+			}
+			wdesc = append(wdesc, d)
+			wbefore = append(wbefore, bytes.Join(in.Witness, []byte{0xff, 0x00, 0xff}))
+		}
+		before := stripped(tx)
+		var ret []byte
+		err, panicked := guard(func() error {
+			b, e := s.wm.SignRawTx([]byte(pass), fl, tx)
+			ret = b
+			return e
+		})
+		impl := errClass(err)
+		if panicked {
+			impl = "panic"
+		}
+		if strings.HasPrefix(impl, "err:other:") {
+			impl = "err:engine:" + impl[len("err:other:"):]
+		}
+		after := stripped(tx)
+		stripEq := "0"
+		if bytes.Equal(before, after) {
+			stripEq = "1"
+		}
+		witSame := 1
+		for i, in := range tx.TxIn {
+			if !bytes.Equal(wbefore[i], bytes.Join(in.Witness, []byte{0xff, 0x00, 0xff})) {
+				witSame = 0
+			}
+		}
+		retOK := "0"
+		if err == nil && !panicked {
+			if cur, e := tx.Bytes(wire.Packet); e == nil && bytes.Equal(cur, ret) {
+				retOK = "1"
+			}
+		} else if ret == nil {
 			retOK = "1"
 		}
-	} else if ret == nil {
-		retOK = "1"
-	}
-	verified := "-"
-	if err == nil && !panicked {
-		verified = "1"
+		verified := "-"
+		if err == nil && !panicked {
+			verified = "1"
+			for i, in := range ins {
+				if in.c == nil || in.kind != 'O' {
+					verified = fmt.Sprintf("input-%d-not-a-wallet-coin", i)
+					break
+				}
+				if v := verifyInput(tx, i, in.c, wantFlag, s.warm, pendingHeight); v != "1" {
+					verified = fmt.Sprintf("input-%d:%s", i, strings.ReplaceAll(v, "\t", " "))
+					break
+				}
+			}
+		}
+		var desc []string
+		pend, cls := 0, map[int]bool{}
 		for i, in := range ins {
-			if in.c == nil || in.kind != 'O' {
-				verified = fmt.Sprintf("input-%d-not-a-wallet-coin", i)
-				break
+			if in.c == nil || in.kind == 'M' {
+				desc = append(desc, fmt.Sprintf("M:0:0:0:-:0:%d:%s", in.seq, wdesc[i]))
+				continue
 			}
-			if v := verifyInput(tx, i, in.c, flagBytes[fl], s.warm, pendingHeight); v != "1" {
-				verified = fmt.Sprintf("input-%d:%s", i, strings.ReplaceAll(v, "\t", " "))
-				break
+			c := in.c
+			mine := "-"
+			if c.wallet == 0 {
+				mine = fmt.Sprintf("%d.%d", c.addr.b, c.addr.i)
+			}
+			sp := 0
+			if c.spent {
+				sp = 1
+			}
+			if c.height < 0 {
+				pend++
+			}
+			cls[c.class] = true
+			desc = append(desc, fmt.Sprintf("%c:%d:%d:%d:%s:%d:%d:%s", in.kind, c.class, c.frozen, sp, mine, c.height, in.seq, wdesc[i]))
+		}
+		ds := strings.Join(desc, ",")
+		if ds == "" {
+			ds = "-"
+		}
+		note := "mixed"
+		if clean {
+			note = "clean"
+		}
+		fmt.Fprintf(s.out, "S\t%d\t%s\t%s\t%d\t%s\t%s\t%s\t%s\t%s\t%s\t%s\t%s;pend=%d;right=%v;lock=%d;payload=%d;witsame=%d;%s\n", s.n, hx([]byte(pass)), hx([]byte(fl)), nout, ds,
+			impl, shape(tx), stripEq, retOK, verified, s.obs(), note, pend, right, lock, len(payload), witSame, tag)
+		stats["sign"]++
+		stats["sign_"+tag]++
+		stats["flag_"+strings.ReplaceAll(strings.ReplaceAll(fl, "|", "_"), " ", "_")]++
+		if pend > 0 {
+			stats["sign_with_pending_input"]++
+		}
+		for c := range cls {
+			stats[fmt.Sprintf("sign_class%d", c)]++
+		}
+		if right {
+			stats["sign_right_pass"]++
+		}
+		if impl == "ok" {
+			stats["sign_ok"]++
+		}
+		return err == nil && !panicked, ret
+	}
+	ok, ret := call(tx, fl, pass, right, "first", flagBytes[fl])
+	if !ok || len(ins) == 0 || !r.Chance(75) {
+		return
+	}
+	// the transaction is completely signed now: sign it AGAIN — the same object, the re-decoded
+	// bytes, and partially signed variants — with wrong / near-miss / empty and right passphrases
+	wrongPass := func() string {
+		for t := 0; t < 20; t++ {
+			if q, rt := s.pickPass(); !rt {
+				return q
 			}
 		}
+		return s.pass + "x"
 	}
-	var desc []string
-	pend, cls := 0, map[int]bool{}
-	for _, in := range ins {
-		if in.c == nil || in.kind == 'M' {
-			desc = append(desc, fmt.Sprintf("M:0:0:0:-:0:%d:0", in.seq))
-			continue
+	decode := func() *wire.MsgTx {
+		t2 := wire.NewMsgTx()
+		if err := t2.SetBytes(ret, wire.Packet); err != nil {
+			return nil
 		}
-		c := in.c
-		mine := "-"
-		if c.wallet == 0 {
-			mine = fmt.Sprintf("%d.%d", c.addr.b, c.addr.i)
+		return t2
+	}
+	anyFlag := func() string { return flagStrings[r.Intn(len(flagStrings))] }
+	switch r.Intn(4) {
+	case 0:
+		call(tx, anyFlag(), wrongPass(), false, "resign_same_object", 0)
+	case 1:
+		if t2 := decode(); t2 != nil {
+			q, rt := s.pickPass()
+			if r.Chance(60) {
+				q, rt = wrongPass(), false
+			}
+			f2 := fl
+			if !rt {
+				f2 = anyFlag()
+			}
+			call(t2, f2, q, rt, "resign_decoded", 0)
 		}
-		sp := 0
-		if c.spent {
-			sp = 1
+	case 2:
+		if t2 := decode(); t2 != nil {
+			if r.Chance(50) {
+				call(t2, anyFlag(), "", false, "resign_empty_pass", 0)
+			} else {
+				call(t2, anyFlag(), s.pass+"\x00", false, "resign_nul_pass", 0)
+			}
 		}
-		if c.height < 0 {
-			pend++
+	default:
+		if t2 := decode(); t2 != nil {
+			k := r.Intn(len(t2.TxIn))
+			for i, in := range t2.TxIn {
+				if i == k || r.Chance(40) {
+					in.Witness = nil
+				}
+			}
+			q, rt := wrongPass(), false
+			f2 := anyFlag()
+			if r.Chance(30) {
+				q, rt, f2 = s.pass, true, fl
+			}
+			call(t2, f2, q, rt, "resign_partial", 0)
 		}
-		cls[c.class] = true
-		desc = append(desc, fmt.Sprintf("%c:%d:%d:%d:%s:%d:%d:0", in.kind, c.class, c.frozen, sp, mine, c.height, in.seq))
-	}
-	ds := strings.Join(desc, ",")
-	if ds == "" {
-		ds = "-"
-	}
-	note := "mixed"
-	if clean {
-		note = "clean"
-	}
-	fmt.Fprintf(s.out, "S\t%d\t%s\t%s\t%d\t%s\t%s\t%s\t%s\t%s\t%s\t%s\t%s;pend=%d;right=%v;lock=%d;payload=%d\n", s.n, hx([]byte(pass)), hx([]byte(fl)), nout, ds,
-		impl, shape(tx), stripEq, retOK, verified, s.obs(), note, pend, right, lock, len(payload))
-	stats["sign"]++
-	stats["flag_"+strings.ReplaceAll(fl, "|", "_")]++
-	if pend > 0 {
-		stats["sign_with_pending_input"]++
-	}
-	for c := range cls {
-		stats[fmt.Sprintf("sign_class%d", c)]++
-	}
-	if right {
-		stats["sign_right_pass"]++
-	}
-	if impl == "ok" {
-		stats["sign_ok"]++
 	}
 }
 
